@@ -7,6 +7,8 @@ package lib
 
 import (
 	"time"
+
+	"github.com/go-redis/redis/v8"
 )
 
 // VerifParseRegMessage exposes parseRegMessage to drivers living in other packages.
@@ -32,3 +34,30 @@ func (reg *DecoyRegistration) VerifTransportParams() any { return reg.transportP
 
 // VerifRegistrationAddr returns the registrant address bytes.
 func (reg *DecoyRegistration) VerifRegistrationAddr() []byte { return reg.registrationAddr }
+
+// VerifUseRedis points the package's detector channel at addr (the station hard-codes localhost:6379).
+func VerifUseRedis(addr string) {
+	once.Do(func() {})
+	client = redis.NewClient(&redis.Options{Addr: addr, PoolSize: 100})
+}
+
+// VerifUsed reports whether the registration's timeout record is in the "used" state, and whether
+// the record exists at all.
+func (rm *RegistrationManager) VerifUsed(reg *DecoyRegistration) (used, tracked bool) {
+	r := rm.registeredDecoys
+	r.m.RLock()
+	defer r.m.RUnlock()
+	t, ok := r.decoysTimeouts[reg.IDString()+reg.PhantomIp.String()]
+	if !ok {
+		return false, false
+	}
+	return t.status == regStatusUsed, true
+}
+
+// VerifTotals returns (registrations tracked, timeout records).
+func (rm *RegistrationManager) VerifTotals() (int, int) {
+	r := rm.registeredDecoys
+	r.m.RLock()
+	defer r.m.RUnlock()
+	return r.totalRegistrations(), len(r.decoysTimeouts)
+}
